@@ -78,6 +78,7 @@ type dpHist struct {
 	newIdx  [][][]string // candidate new indexes per table
 	failed  bool
 	soft    bool
+	plainBuild bool // scripted history: index build without any generated extras
 	hid     int
 	log     []string // op lines of this history (for failure descriptions)
 }
@@ -797,7 +798,7 @@ func (h *dpHist) build(tn int, midMerge bool) {
 	cols := h.newIdx[tn][0]
 	h.newIdx[tn] = h.newIdx[tn][1:]
 	table := h.tables[tn]
-	if h.r.Intn(3) != 0 {
+	if !h.plainBuild && h.r.Intn(3) != 0 {
 		// a commit just before AddExclusive whose merge is still queued
 		h.begin(true)
 		t := h.trans[len(h.trans)-1]
@@ -844,7 +845,7 @@ func (h *dpHist) build(tn int, midMerge bool) {
 		emitted = true
 		h.sweep() // AddExclusive aborts the transactions that wrote to the table
 	}
-	if h.r.Intn(2) == 0 {
+	if !h.plainBuild && h.r.Intn(2) == 0 {
 		// a moment with no active update transaction
 		for _, t := range slices.Clone(h.trans) {
 			if t.ut != nil {
@@ -853,7 +854,7 @@ func (h *dpHist) build(tn int, midMerge bool) {
 		}
 		h.tr.Count("build:no-active-update-tran")
 	}
-	useEnsure := h.r.Intn(2) == 0
+	useEnsure := !h.plainBuild && h.r.Intn(2) == 0
 	hook := &dpHook{Check: h.ck, added: func(string) { emitBuildc() },
 		between: func() {
 			if midMerge && h.pending[tn] > 0 {
@@ -861,7 +862,7 @@ func (h *dpHist) build(tn int, midMerge bool) {
 				h.merge(tn, 1+h.r.Intn(h.pending[tn]), false)
 				h.tr.Count("build:merge-between-build-and-apply")
 			}
-			if h.r.Intn(2) == 0 {
+			if !h.plainBuild && h.r.Intn(2) == 0 {
 				// transactions starting, writing (also to the table being built) and
 				// committing while the index is being built
 				h.activity()
@@ -970,6 +971,60 @@ func (h *dpHist) run() {
 	}
 }
 
+// runScripted: the minimal schedules of the defects this check has found, played first
+// (regression inputs; they pass on a repaired tree).
+//
+//	1. a row that exists only in ixbuf layers when an index is built (so the new index has it
+//	   in its btree), deleted before it was ever persisted, merged, persisted, reopened
+//	   (findings/C06.md "persist skips a table whose first index has an empty base layer")
+func (h *dpHist) runScripted() {
+	h.db = CreateDb(stor.HeapStor(64 * 1024))
+	h.db.CheckerSync()
+	h.ck = h.db.ck.(*Check)
+	h.q("reset", "ok")
+	h.tables = []string{"t0"}
+	h.db.Create(&schema.Schema{Table: "t0", Columns: []string{"k", "a", "b"},
+		Indexes: []schema.Index{{Mode: 'k', Columns: []string{"k"}}, {Mode: 'i', Columns: []string{"a"}}}})
+	h.q("table 2", "ok")
+	h.live = []map[uint64]dpRow{{}}
+	h.pending = []int{0}
+	h.newIdx = [][][]string{{{"b", "a"}}}
+	h.plainBuild = true
+	// commit one row; it stays in the ixbuf layers
+	h.begin(true)
+	t := h.trans[0]
+	ts := t.ut.getSchema("t0")
+	rec := dpRec("k1", "a1", "b").Truncate(len(ts.Columns))
+	keys := h.keysOf(ts, rec)
+	t.ut.Output(nil, "t0", rec)
+	off := t.ut.ReadTran.Lookup("t0", 0, keys[0]).Off
+	t.view[0][off] = dpRow{off, rec.Len(), "k1", "a1", "b"}
+	t.wrote[0] = true
+	h.q(fmt.Sprintf("out %d 0 %d %d %s", t.id, off, rec.Len(), lib.Xs(keys)), "ok")
+	h.finish(t, true)
+	h.observe()
+	// build an index: the row goes into the new index's btree
+	h.build(0, false)
+	h.observe()
+	h.merge(0, h.pending[0], false)
+	h.observe()
+	// delete the row before it was ever persisted
+	h.begin(true)
+	t = h.trans[0]
+	if h.readRow(t, 0, t.view[0][off]) {
+		t.ut.Delete(nil, "t0", off)
+		delete(t.view[0], off)
+		t.wrote[0] = true
+		h.q(fmt.Sprintf("del %d 0 %d", t.id, off), "ok")
+	}
+	h.finish(t, true)
+	h.observe()
+	if !h.failed {
+		h.quiesce() // merge everything, persist, reopen view, full check
+	}
+	h.tr.Count("scripted: build, delete of a never persisted row, persist, reopen")
+}
+
 // bigTran: one transaction that reaches writeMax
 func (h *dpHist) runBig() {
 	h.db = CreateDb(stor.HeapStor(256 * 1024))
@@ -1034,6 +1089,8 @@ func dpMain(t *testing.T, cfg dpCfg) {
 		h := &dpHist{tr: tr, r: r, cfg: cfg, hid: i}
 		if cfg.bigTran && i == 0 {
 			h.runBig()
+		} else if cfg.wBuild > 0 && i == 0 {
+			h.runScripted()
 		} else {
 			h.run()
 		}
